@@ -1,4 +1,5 @@
 import ElfiVerif.Proofs.Exec
+import ElfiVerif.Proofs.Pool
 
 /-!
 # C05 — output pools are transparent: reuse never changes results or re-simulates
@@ -56,3 +57,68 @@ theorem add_batch_records (store : List (Nat × Val)) (idx : Nat) (v : Val)
   add_batch_records' store idx v h
 
 end ElfiVerif.Exec
+
+/-! ### the pool object and its directory (`Model/Pool.lean`): any stores, any batches, any history of saves -/
+namespace ElfiVerif.Pool
+
+variable {Val : Type}
+
+/-- **Save / open round trip**: whatever the directory held before (files of stores removed earlier, an older pool
+pickle), the pool opened after `save()` is exactly the saved pool: the same stores in the same order with the same
+batches, the same context. -/
+theorem save_open_roundtrip (p : Pool Val) (d d' : Dir Val) (hn : (p.stores.map (·.1)).Nodup)
+    (hs : save p d = .ok d') : openDir d' = some p :=
+  save_open_roundtrip' p d d' hn hs
+
+/-- **A removed store does not come back**: save, remove a store (its file stays on disk), save again, open - the
+opened pool is the live pool, without that store, although the file is still there. -/
+theorem removed_store_stays_removed (p p' : Pool Val) (d d₁ d₂ : Dir Val) (node : String)
+    (hn : (p.stores.map (·.1)).Nodup) (h₁ : save p d = .ok d₁) (hr : removeStore p node = .ok p')
+    (h₂ : save p' d₁ = .ok d₂) :
+    openDir d₂ = some p' ∧ getStore p' node = none ∧ (∃ s, (node, s) ∈ d₂.files) :=
+  removed_store_stays_removed' p p' d d₁ d₂ node hn h₁ hr h₂
+
+/-- **What `add_batch` does to one store**: the set of stores is unchanged; every other batch index keeps its value;
+the given index keeps the value it already had (first write wins) and otherwise gets the batch's value for that
+node (nothing, if the batch has none). -/
+theorem add_batch_records (p : Pool Val) (batch : List (String × Val)) (idx : Nat)
+    (hn : (p.stores.map (·.1)).Nodup) (hb : (batch.map (·.1)).Nodup) (node : String) (st : Option (StoreC Val))
+    (hst : getStore p node = some st) :
+    (addBatch p batch idx).stores.map (·.1) = p.stores.map (·.1) ∧
+    ∃ s', getStore (addBatch p batch idx) node = some s' ∧
+      (∀ j, j ≠ idx → lookupI (s'.getD []) j = lookupI (st.getD []) j) ∧
+      lookupI (s'.getD []) idx =
+        (match lookupI (st.getD []) idx with
+         | some v₀ => some v₀
+         | none => batchVal batch node) :=
+  add_batch_records' p batch idx hn hb node st hst
+
+/-- **A pool ends up holding exactly the consumed batches**: after a run that hands batches `0 … k-1` (each with a
+value for every stored node, plus anything else) to a fresh pool, every store holds exactly the indices `0 … k-1`,
+in order, each with the value of its batch. -/
+theorem fill_holds_exactly (p : Pool Val) (batches : List (List (String × Val)))
+    (hn : (p.stores.map (·.1)).Nodup) (hfresh : ∀ e ∈ p.stores, e.2.getD [] = [])
+    (hb : ∀ b ∈ batches, (b.map (·.1)).Nodup ∧ ∀ e ∈ p.stores, (batchVal b e.1).isSome) :
+    let q := fillFrom p 0 batches
+    q.stores.map (·.1) = p.stores.map (·.1) ∧
+    ∀ e ∈ q.stores, (e.2.getD []).map (·.1) = List.range batches.length ∧
+      ∀ i (hi : i < batches.length), lookupI (e.2.getD []) i = batchVal (batches[i]'hi) e.1 :=
+  fill_holds_exactly' p batches hn hfresh hb
+
+/-- **Reuse never changes the pool**: running again over batches the pool already holds - whatever values the rerun
+would hand over - leaves the pool exactly as it was. -/
+theorem refill_changes_nothing (p : Pool Val) (batches batches' : List (List (String × Val)))
+    (hn : (p.stores.map (·.1)).Nodup) (hfresh : ∀ e ∈ p.stores, e.2.getD [] = [])
+    (hb : ∀ b ∈ batches, (b.map (·.1)).Nodup ∧ ∀ e ∈ p.stores, (batchVal b e.1).isSome)
+    (hlen : batches'.length ≤ batches.length) (hne : batches ≠ []) :
+    fillFrom (fillFrom p 0 batches) 0 batches' = fillFrom p 0 batches :=
+  refill_changes_nothing' p batches batches' hn hfresh hb hlen hne
+
+/-- `len(pool)` is the number of consumed batches and `i in pool` holds exactly for those -/
+theorem len_contains_after_fill (p : Pool Val) (batches : List (List (String × Val)))
+    (hn : (p.stores.map (·.1)).Nodup) (hfresh : ∀ e ∈ p.stores, e.2.getD [] = []) (hne : p.stores ≠ [])
+    (hb : ∀ b ∈ batches, (b.map (·.1)).Nodup ∧ ∀ e ∈ p.stores, (batchVal b e.1).isSome) (i : Nat) :
+    len (fillFrom p 0 batches) = batches.length ∧ (contains (fillFrom p 0 batches) i = decide (i < batches.length)) :=
+  len_contains_after_fill' p batches hn hfresh hne hb i
+
+end ElfiVerif.Pool
